@@ -16,7 +16,8 @@ from funsor.adjoint import forward_backward
 from funsor.interpreter import reinterpret
 from funsor.optimizer import apply_optimizer
 from funsor.adjoint import AdjointTape, adjoint_ops  # noqa: F401
-from funsor.interpretations import DispatchedInterpretation, PrioritizedInterpretation, Memoize
+from funsor.interpretations import (DispatchedInterpretation, PrioritizedInterpretation, Memoize,
+                                    StatefulInterpretation)
 from funsor.terms import Binary, Funsor, Number, SubstituteInterpretation, Variable, substitute
 
 STACK = INTERP._STACK
@@ -69,7 +70,7 @@ class MarkS(Funsor):
 
 
 _reflect = FI.reflect.interpret     # direct constructor: does not look at the stack
-SENT = {n: _reflect(Variable, "sentinel_" + n, Real) for n in ("P", "W2", "W3")}
+SENT = {n: _reflect(Variable, "sentinel_" + n, Real) for n in ("P", "W2", "W3", "Q")}
 SUBST_VALUE = _reflect(Number, 1.0, "real")
 
 
@@ -93,9 +94,21 @@ W3.register(MarkA, str)(_rule("W3"))
 W3.register(MarkB, str)(_rule("W3"))
 W = PrioritizedInterpretation(W1, W2, W3)
 
-USER_LEAVES = ["P", "W1", "W2", "W3"]
+class QInterp(StatefulInterpretation):
+    """a user-defined StatefulInterpretation (partial): instances are built by ("mk", name, "Q")"""
+
+    def __init__(self):
+        super().__init__("Q")
+
+
+@QInterp.register(MarkB, str)
+def _q_rule(state, name):
+    return _rule("Q")(name)
+
+
+USER_LEAVES = ["P", "W1", "W2", "W3", "Q"]
 USER_CHAINS = [("W", ["W1", "W2", "W3"])]
-USER_RULES = [("P", ["a", "bin"]), ("W2", ["b"]), ("W3", ["a", "b"])]
+USER_RULES = [("P", ["a", "bin"]), ("W2", ["b"]), ("W3", ["a", "b"]), ("Q", ["b"])]
 USER_OBJ = {"P": P, "W1": W1, "W2": W2, "W3": W3, "W": W}
 PROBES = ["num", "a", "b", "bin"]
 PROBE_CLASS = {"num": Binary, "a": MarkA, "b": MarkB, "bin": Binary, "S": MarkS}
@@ -155,13 +168,14 @@ class Canon:
             self.names[id(o)] = n
         self.cache = {}     # id -> (obj kept alive, canon)
         self.shared = {}    # id(dict) -> c for the current run's explicit cache dicts
+        self.tmp_names = {} # id -> name of objects constructed during the current run
 
     def one(self, o):
         i = id(o)
         hit = self.cache.get(i)
         if hit is not None and hit[0] is o:
             return hit[1]
-        n = self.names.get(i)
+        n = self.names.get(i) or self.tmp_names.get(i)
         if n is not None:
             c = n
         elif isinstance(o, PrioritizedInterpretation):
@@ -206,6 +220,7 @@ class RealRun:
         self.refused = 0     # blocks whose __enter__ raised
         self.shared_tape = None   # ctx "tapeR": one AdjointTape object re-entered sequentially
         self.funcs = {}           # name -> function decorated by ("def", name, ctx, body)
+        self.prebuilt = {}        # name -> interpretation object constructed by ("mk", name, ctor)
         self.shared = {1: {}, 2: {}}   # the user's own dicts for memoize(cache=d): ctx "memoS1", "memoS2"
         self.keep = []            # probe operands (kept alive so that cons-hashing returns the same objects)
         self.inv = inv       # probe kind -> {class name -> handler leaf}
@@ -214,6 +229,7 @@ class RealRun:
         if not same(tuple(STACK), BASE):
             STACK[:] = list(BASE)
         CANON.cache.clear()
+        CANON.tmp_names = {}
         CANON.shared = {id(d): c for c, d in self.shared.items()}
         out = "normal"
         try:
@@ -251,6 +267,12 @@ class RealRun:
                 self.shared_tape = AdjointTape()
             CANON.cache.pop(id(self.shared_tape), None)
             return self.shared_tape
+        if c[0] == "@":
+            o = self.prebuilt.get(c[1:])
+            if o is None:
+                raise ScopeError(c)
+            CANON.cache.pop(id(o), None)
+            return o
         if c == "subst0":
             return SubstituteInterpretation((), INTERP.get_interpretation())
         if c == "subst":
@@ -307,6 +329,13 @@ class RealRun:
                 f()
             finally:
                 self.block_check("decorated-call", before)
+        elif t == "mk":
+            # construct an interpretation object HERE (stack state S1); it is entered elsewhere (S2)
+            before = tuple(STACK)
+            try:
+                self.prebuilt[p[1]] = self.construct(p[2])
+            finally:
+                self.block_check("construction", before)
         elif t == "def":
             # decorator form, applied HERE (stack state S1); the function is called elsewhere (S2)
             cm = self.make_ctx(p[2])
@@ -339,6 +368,21 @@ class RealRun:
             pass
         else:
             raise ValueError(p)
+
+    def construct(self, ctor):
+        g = lambda n: USER_OBJ.get(n) or named_obj(n)
+        if ctor.startswith("memo:"):
+            return Memoize(g(ctor[5:]))
+        if ctor.startswith("prio:"):
+            a, b = ctor[5:].split(",")
+            return PrioritizedInterpretation(g(a), g(b))
+        if ctor == "Q":
+            o = QInterp()
+            CANON.tmp_names[id(o)] = "Q"      # (the run keeps `o` alive; cleared at the next run)
+            return o
+        if ctor == "tape":
+            return AdjointTape()
+        raise ValueError(ctor)
 
     def record(self, k, r, raised):
         ev = list(EVENTS)
